@@ -111,3 +111,157 @@ Lemma index_2 a b l : index (a :: b :: l) 2 = b. Proof. reflexivity. Qed.
 Lemma index_3 a b c l : index (a :: b :: c :: l) 3 = c. Proof. reflexivity. Qed.
 Lemma index_4 a b c d l : index (a :: b :: c :: d :: l) 4 = d. Proof. reflexivity. Qed.
 Ltac index_simp := cbn [map]; rewrite ?index_1, ?index_2, ?index_3, ?index_4.
+
+(* ---------------------------------------------------------------- Lua arithmetic on integers *)
+Lemma znum_eq a b : a = b -> znum a = znum b.
+Proof. congruence. Qed.
+
+Lemma lua_add_z a b st : lua_add (znum a) (znum b) st = (Ok (znum (a + b)), st).
+Proof. unfold lua_add, num2, znum, lift, Qplus, inject_Z; cbn. rewrite !Z.mul_1_r. reflexivity. Qed.
+
+Lemma lua_sub_z a b st : lua_sub (znum a) (znum b) st = (Ok (znum (a - b)), st).
+Proof.
+  unfold lua_sub, num2, znum, lift, Qminus, Qplus, Qopp, inject_Z; cbn. rewrite !Z.mul_1_r.
+  reflexivity.
+Qed.
+
+Lemma lua_mul_z a b st : lua_mul (znum a) (znum b) st = (Ok (znum (a * b)), st).
+Proof. reflexivity. Qed.
+
+Lemma lua_lt_z a b st : lua_lt (znum a) (znum b) st = (Ok (LBool (a <? b)), st).
+Proof. unfold lua_lt, num2, znum, lift. now rewrite qlt_inject. Qed.
+
+Lemma lua_ge_z a b st : lua_ge (znum a) (znum b) st = (Ok (LBool (b <=? a)), st).
+Proof. unfold lua_ge, num2, znum, lift. now rewrite Qle_bool_inject. Qed.
+
+Lemma lua_max_z a b st : lua_max (znum a) (znum b) st = (Ok (znum (Z.max a b)), st).
+Proof.
+  unfold lua_max, num2, znum, lift. rewrite qlt_inject.
+  destruct (a <? b) eqn:E.
+  - apply Z.ltb_lt in E. replace (Z.max a b) with b by lia. reflexivity.
+  - apply Z.ltb_ge in E. replace (Z.max a b) with a by lia. reflexivity.
+Qed.
+
+Lemma lua_min_z a b st : lua_min (znum a) (znum b) st = (Ok (znum (Z.min a b)), st).
+Proof.
+  unfold lua_min, num2, znum, lift. rewrite qlt_inject.
+  destruct (b <? a) eqn:E.
+  - apply Z.ltb_lt in E. replace (Z.min a b) with b by lia. reflexivity.
+  - apply Z.ltb_ge in E. replace (Z.min a b) with a by lia. reflexivity.
+Qed.
+
+Lemma lua_eq_z a b : lua_eq (znum a) (znum b) = LBool (a =? b).
+Proof. unfold lua_eq, znum. now rewrite Qeq_bool_inject. Qed.
+
+(* math.floor((a/b)*2) for b > 0 *)
+Lemma lua_div_mul2_floor a b st : 0 < b ->
+  (bind (lua_div (znum a) (znum b)) (fun t1 => bind (lua_mul t1 (znum 2)) (fun t2 => lua_floor t2))) st
+  = (Ok (znum (a * 2 / b)), st).
+Proof.
+  intro Hb. destruct b as [|p|p]; try lia.
+  unfold bind, lua_div, lua_mul, lua_floor, num2, znum, lift, ret.
+  unfold Qeq_bool, inject_Z; cbn.
+  unfold Qfloor, Qdiv, Qmult, Qinv, inject_Z; cbn.
+  rewrite Z.mul_1_r, Pos.mul_1_r. reflexivity.
+Qed.
+
+Lemma redis_call_kz c k z st : redis_call c [LStr k; znum z] st = exec c [k; BInt z] st.
+Proof. unfold redis_call. cbn [to_args]. rewrite to_arg_znum. reflexivity. Qed.
+
+Lemma redis_call_k c k st : redis_call c [LStr k] st = exec c [k] st.
+Proof. reflexivity. Qed.
+
+Lemma redis_call_kzz c k z1 z2 st :
+  redis_call c [LStr k; znum z1; znum z2] st = exec c [k; BInt z1; BInt z2] st.
+Proof. unfold redis_call. cbn [to_args]. rewrite !to_arg_znum. reflexivity. Qed.
+
+Lemma exec_expire_ok k p st : exists x, fst (exec EXPIRE [k; BInt p] st) = Ok x.
+Proof. cbn [exec]. destruct (lookup st k); [destruct (p <=? 0)|]; cbn; eauto. Qed.
+
+Lemma lua_div_z a b st : 0 < b ->
+  lua_div (znum a) (znum b) st = (Ok (LNum (inject_Z a / inject_Z b)), st).
+Proof.
+  intro Hb. unfold lua_div, num2, znum, lift. change 0%Q with (inject_Z 0). rewrite Qeq_bool_inject.
+  destruct (b =? 0) eqn:E; [apply Z.eqb_eq in E; lia | reflexivity].
+Qed.
+
+Lemma Qfloor_div2 a b : 0 < b -> Qfloor (inject_Z a / inject_Z b * inject_Z 2) = a * 2 / b.
+Proof.
+  intro Hb. destruct b as [|p|p]; try lia.
+  unfold Qfloor, Qdiv, Qmult, Qinv, inject_Z; cbn. rewrite Z.mul_1_r, Pos.mul_1_r. reflexivity.
+Qed.
+
+(* the number a script reads back from a key: numerals only, nil otherwise *)
+Definition stored_num (st : rstate) (k : bulk) : option Z :=
+  match lookup st k with Some (mkEntry (BInt z) _) => Some z | _ => None end.
+
+Lemma tonumber_get st k :
+  lua_tonumber (match lookup st k with Some e => LStr (evalue e) | None => LBool false end) =
+  match stored_num st k with Some z => znum z | None => LNil end.
+Proof. unfold stored_num. destruct (lookup st k) as [[[z|s] ex]|]; reflexivity. Qed.
+
+(* ---------------------------------------------------------------- stepping a script *)
+Lemma bind_ret_l {A B} (a : A) (f : A -> M B) : bind (ret a) f = f a.
+Proof. reflexivity. Qed.
+
+Lemma ret_eq {A} (a b : A) : a = b -> @ret A a = ret b.
+Proof. congruence. Qed.
+
+Lemma lua_add_M a b : lua_add (znum a) (znum b) = ret (znum (a + b)).
+Proof.
+  change (ret (LNum (inject_Z a + inject_Z b)) = ret (znum (a + b))). apply ret_eq.
+  unfold znum, Qplus, inject_Z; cbn. now rewrite !Z.mul_1_r.
+Qed.
+Lemma lua_sub_M a b : lua_sub (znum a) (znum b) = ret (znum (a - b)).
+Proof.
+  change (ret (LNum (inject_Z a - inject_Z b)) = ret (znum (a - b))). apply ret_eq.
+  unfold znum, Qminus, Qplus, Qopp, inject_Z; cbn. now rewrite !Z.mul_1_r.
+Qed.
+Lemma lua_mul_M a b : lua_mul (znum a) (znum b) = ret (znum (a * b)).
+Proof. reflexivity. Qed.
+Lemma lua_mul_qM q z : lua_mul (LNum q) (znum z) = ret (LNum (q * inject_Z z)).
+Proof. reflexivity. Qed.
+Lemma lua_floor_M q : lua_floor (LNum q) = ret (znum (Qfloor q)).
+Proof. reflexivity. Qed.
+Lemma lua_div_M a b : 0 < b -> lua_div (znum a) (znum b) = ret (LNum (inject_Z a / inject_Z b)).
+Proof.
+  intro Hb. unfold lua_div, num2, znum. change 0%Q with (inject_Z 0). rewrite Qeq_bool_inject.
+  destruct (b =? 0) eqn:E; [apply Z.eqb_eq in E; lia | reflexivity].
+Qed.
+Lemma lua_lt_M a b : lua_lt (znum a) (znum b) = ret (LBool (a <? b)).
+Proof. change (ret (LBool (qlt (inject_Z a) (inject_Z b))) = ret (LBool (a <? b))). now rewrite qlt_inject. Qed.
+Lemma lua_ge_M a b : lua_ge (znum a) (znum b) = ret (LBool (b <=? a)).
+Proof. change (ret (LBool (Qle_bool (inject_Z b) (inject_Z a))) = ret (LBool (b <=? a))). now rewrite Qle_bool_inject. Qed.
+Lemma lua_max_M a b : lua_max (znum a) (znum b) = ret (znum (Z.max a b)).
+Proof.
+  change (ret (LNum (if qlt (inject_Z a) (inject_Z b) then inject_Z b else inject_Z a)) = ret (znum (Z.max a b))).
+  apply ret_eq. rewrite qlt_inject. destruct (a <? b) eqn:E.
+  - apply Z.ltb_lt in E. replace (Z.max a b) with b by lia. reflexivity.
+  - apply Z.ltb_ge in E. replace (Z.max a b) with a by lia. reflexivity.
+Qed.
+Lemma lua_min_M a b : lua_min (znum a) (znum b) = ret (znum (Z.min a b)).
+Proof.
+  change (ret (LNum (if qlt (inject_Z b) (inject_Z a) then inject_Z b else inject_Z a)) = ret (znum (Z.min a b))).
+  apply ret_eq. rewrite qlt_inject. destruct (b <? a) eqn:E.
+  - apply Z.ltb_lt in E. replace (Z.min a b) with b by lia. reflexivity.
+  - apply Z.ltb_ge in E. replace (Z.min a b) with a by lia. reflexivity.
+Qed.
+
+Definition get_val (st : rstate) (k : bulk) : lval :=
+  match lookup st k with Some e => LStr (evalue e) | None => LBool false end.
+
+Lemma bind_get {B} k (f : lval -> M B) st :
+  bind (redis_call GET [LStr k]) f st = f (get_val st k) st.
+Proof. reflexivity. Qed.
+
+Lemma tonumber_get_val st k :
+  lua_tonumber (get_val st k) = match stored_num st k with Some z => znum z | None => LNil end.
+Proof. apply tonumber_get. Qed.
+
+Lemma bind_setex {B} k ttl v (f : lval -> M B) st :
+  bind (redis_call SETEX [LStr k; znum ttl; znum v]) f st =
+  if ttl <=? 0 then (Err EExpire, st)
+  else f (LStatus "OK") (store_put st k (mkEntry (BInt v) (Some (rnow st + ttl * 1000)))).
+Proof.
+  unfold bind. rewrite redis_call_kzz. cbn [exec]. destruct (ttl <=? 0); reflexivity.
+Qed.
